@@ -632,24 +632,42 @@ def extendLoop (guard : Bool) (sid : Nat) : Nat → State → Loc → Nat → Ex
               | .ok σ2 => extendLoop guard sid n σ2 l (i + 1)
           | .ok _ => .error .badarg
 
-/-- `Var& extend(const Var& v)`: NONE → becomes an empty object; if both are objects, every defined property of
-`v` is assigned into this one (commits 63d8c00, 02a4aa4: `v` must be an object; its Dic is held for the loop) -/
-def extendV (guard : Bool) (σ : State) (l : Loc) (src : V) : Except Err State := do
-  let v ← readLoc σ l
-  let σ0 ← match v with
-    | .none =>
-      let (h1, id) := allocB σ.heap (emptyBlock true)
-      writeLoc { σ with heap := h1 } l (.obj id)
-    | _ => pure σ
-  let v0 ← readLoc σ0 l
-  match v0, src with
-  | .obj _, .obj sid =>
-    let h1 ← copyV σ0.heap src                       -- Dic<Var> src = *v._o;
-    let sb ← getB h1 sid
-    let σ1 ← extendLoop guard sid sb.items.length { σ0 with heap := h1 } l 0
-    let h2 ← drop σ1.heap [src]                      -- ~Dic
-    pure { σ1 with heap := h2 }
-  | _, _ => pure σ0
+/-- the first statement of `extend`: `if (_type == NONE) { NEW_DIC(_o); _type = OBJ; }` -/
+def toObjIfNone (σ : State) (l : Loc) : Except Err State :=
+  match readLoc σ l with
+  | .error e => .error e
+  | .ok .none =>
+    let (h1, id) := allocB σ.heap (emptyBlock true)
+    writeLoc { σ with heap := h1 } l (.obj id)
+  | .ok _ => .ok σ
+
+/-- the rest of `extend`: if both are objects, every defined property of `v` is assigned into this one
+(commits 63d8c00, 02a4aa4: `v` must be an object; its Dic is held for the loop) -/
+def extendObj (guard : Bool) (σ0 : State) (l : Loc) (src : V) : Except Err State :=
+  match readLoc σ0 l with
+  | .error e => .error e
+  | .ok v0 =>
+    match v0, src with
+    | .obj _, .obj sid =>
+      match copyV σ0.heap src with                       -- Dic<Var> src = *v._o;
+      | .error e => .error e
+      | .ok h1 =>
+        match getB h1 sid with
+        | .error e => .error e
+        | .ok sb =>
+          match extendLoop guard sid sb.items.length { σ0 with heap := h1 } l 0 with
+          | .error e => .error e
+          | .ok σ1 =>
+            match drop σ1.heap [src] with                -- ~Dic
+            | .error e => .error e
+            | .ok h2 => .ok { σ1 with heap := h2 }
+    | _, _ => .ok σ0
+
+/-- `Var& extend(const Var& v)` -/
+def extendV (guard : Bool) (σ : State) (l : Loc) (src : V) : Except Err State :=
+  match toObjIfNone σ l with
+  | .error e => .error e
+  | .ok σ0 => extendObj guard σ0 l src
 
 /-- number of insertions `extend` would make (for the shared-growth guard of the whole call) -/
 def extendNewKeys (tgt : List (Bytes × V)) (src : List (Bytes × V)) : Nat :=
@@ -939,51 +957,109 @@ def assignType (σ : State) (t : Loc) (ty : Nat) : Except Err State := do
 def anyReaches (h : Heap) (target : Nat) (items : List (Bytes × V)) : Except Err Bool :=
   anyE items (fun kv => if kv.2 = V.none then .ok false else reaches (travFuel h) h target kv.2)
 
+/-- `wouldCycle` as a guard: refuse with `cyclic` -/
+def cycleGuard (h : Heap) (parent : Option Nat) (src : V) : Except Err Unit :=
+  match wouldCycle h parent src with
+  | .error e => .error e
+  | .ok true => .error .cyclic
+  | .ok false => .ok ()
+
+/-- `p = q;` -/
+def opSetV (σ : State) (t : Loc) (q : Path) : Except Err State :=
+  match cget σ q with
+  | .error e => .error e
+  | .ok src =>
+    match cycleGuard σ.heap (parentOf t) src with
+    | .error e => .error e
+    | .ok _ => assignV σ t src
+
+/-- guard of `p << q;` where the Var at `t` holds `v` -/
+def appGuard (σ : State) (t : Loc) (q : Path) (src v : V) : Except Err Unit :=
+  match v with
+  | .arr id =>
+    match reaches (travFuel σ.heap) σ.heap id src with
+    | .error e => .error e
+    | .ok true => .error .cyclic
+    | .ok false => .ok ()
+  | .none =>
+    -- the new array lives inside the parent
+    match cycleGuard σ.heap (parentOf t) src with
+    | .error e => .error e
+    | .ok _ =>
+      -- `v << v` on an undefined v: the argument is a reference to the Var that has just become the array
+      match cloc σ q with
+      | .error e => .error e
+      | .ok sl => if sl = some t then .error .cyclic else .ok ()
+  | _ => .ok ()
+
+/-- `p << q;` -/
+def opApp (guard : Bool) (σ : State) (t : Loc) (q : Path) : Except Err State :=
+  match cget σ q with
+  | .error e => .error e
+  | .ok src =>
+    match readLoc σ t with
+    | .error e => .error e
+    | .ok v =>
+      match appGuard σ t q src v with
+      | .error e => .error e
+      | .ok _ => appendAt guard σ t src
+
+/-- guard of `p.extend(q);` where the Var at `t` holds `v` -/
+def extGuard (guard : Bool) (σ : State) (t : Loc) (src v : V) : Except Err Unit :=
+  match v, src with
+  | .obj id, .obj sid =>
+    match getB σ.heap id, getB σ.heap sid with
+    | .ok b, .ok sb =>
+      match anyReaches σ.heap id sb.items with
+      | .error e => .error e
+      | .ok true => .error .cyclic
+      | .ok false =>
+        if guard && decide (b.rc > 1) && decide (b.items.length + extendNewKeys b.items sb.items > b.cap) then
+          .error .sharedGrowth
+        else .ok ()
+    | .error e, _ => .error e
+    | _, .error e => .error e
+  | .none, .obj sid =>
+    match parentOf t with
+    | some pid =>
+      if pid = sid then .error .cyclic      -- the new object is a property of `src` itself
+      else
+        match getB σ.heap sid with
+        | .error e => .error e
+        | .ok sb =>
+          match anyReaches σ.heap pid sb.items with   -- the new object lives inside the parent
+          | .error e => .error e
+          | .ok true => .error .cyclic
+          | .ok false => .ok ()
+    | none => .ok ()
+  | _, _ => .ok ()
+
+/-- `p.extend(q);` -/
+def opExtend (guard : Bool) (σ : State) (t : Loc) (q : Path) : Except Err State :=
+  match cget σ q with
+  | .error e => .error e
+  | .ok src =>
+    match readLoc σ t with
+    | .error e => .error e
+    | .ok v =>
+      match extGuard guard σ t src v with
+      | .error e => .error e
+      | .ok _ => extendV guard σ t src
+
 /-- the statement body once the target `t` is resolved; the guards (`cyclic`, `sharedGrowth`) are decided exactly as
 harness/c04.cpp decides them from the public API before it issues the call -/
 def opBody (guard : Bool) (σ : State) (t : Loc) : Op → Except Err State
   | .setLit _ (.str s) => assignString σ t s
   | .setLit _ l => assignScalar σ t l.toV
   | .setType _ ty => assignType σ t ty
-  | .setV _ q => do
-    let src ← cget σ q
-    if (← wouldCycle σ.heap (parentOf t) src) then throw .cyclic
-    assignV σ t src
-  | .app _ q => do
-    let src ← cget σ q
-    let v ← readLoc σ t
-    match v with
-    | .arr id => if (← reaches (travFuel σ.heap) σ.heap id src) then throw .cyclic
-    | .none =>
-      if (← wouldCycle σ.heap (parentOf t) src) then throw .cyclic   -- the new array lives inside the parent
-      -- `v << v` on an undefined v: the argument is a reference to the Var that has just become the array
-      if (← cloc σ q) = some t then throw .cyclic
-    | _ => pure ()
-    appendAt guard σ t src
+  | .setV _ q => opSetV σ t q
+  | .app _ q => opApp guard σ t q
   | .appLit _ l => appendAt guard σ t l.toV
   | .resize _ n => resizeV guard σ t n
   | .removeAt _ i n => if i < 0 ∨ n ≤ 0 then .ok σ else removeAtV σ t i.toNat n.toNat
   | .removeKey _ k => removeKeyV σ t k
   | .clear _ => clearV σ t
-  | .extend _ q => do
-    let src ← cget σ q
-    let v ← readLoc σ t
-    match v, src with
-    | .obj id, .obj sid =>
-      let b ← getB σ.heap id
-      let sb ← getB σ.heap sid
-      if (← anyReaches σ.heap id sb.items) then throw .cyclic
-      if guard && decide (b.rc > 1) && decide (b.items.length + extendNewKeys b.items sb.items > b.cap) then
-        throw .sharedGrowth
-    | .none, .obj sid =>
-      match parentOf t with
-      | some pid =>
-        if pid = sid then throw .cyclic      -- the new object is a property of `src` itself
-        let sb ← getB σ.heap sid
-        if (← anyReaches σ.heap pid sb.items) then throw .cyclic   -- the new object lives inside the parent
-      | none => pure ()
-    | _, _ => pure ()
-    extendV guard σ t src
+  | .extend _ q => opExtend guard σ t q
   | _ => .error .badarg
 
 /-- one statement of a history.  The state is returned also when the statement is refused: the steps of the
